@@ -94,6 +94,7 @@ def compositions(data):
         ("search-gridlist", GridSearchCV(DecisionTreeClassifier(), [{"max_depth": [1, 2]}, {"class_weight": [{0: 1, 1: 3}]}], cv=2)),
         ("forest-multi-classweight", __import__("sklearn.ensemble", fromlist=["x"]).RandomForestClassifier(
             n_estimators=2, random_state=0, class_weight=[{0: 1.0, 1: 2.0}, {0: 1.0, 1: 5.0}])),
+        ("sparse-random-projection", __import__("sklearn.random_projection", fromlist=["x"]).SparseRandomProjection(n_components=3, density=0.9, random_state=0)),
         ("np-scalar-params", Pipeline([("i", __import__("sklearn.impute", fromlist=["x"]).SimpleImputer(strategy="constant", fill_value=np.float32(0.5))),
                                         ("c", LogisticRegression(C=np.float64(2.0), max_iter=np.int64(50),
                                                                  class_weight={np.int64(0): np.float64(1.0), np.int64(1): 2.0}))])),
@@ -107,7 +108,22 @@ def parameter_objects():
     from sklearn.linear_model import LogisticRegression
     from sklearn.preprocessing import FunctionTransformer
 
-    out = [("imputer-npstr", SimpleImputer(strategy="constant", fill_value=np.str_("missing"))),
+    import scipy.sparse as _sp
+    from sklearn.kernel_approximation import RBFSampler
+    from sklearn.random_projection import GaussianRandomProjection
+
+    def used_rs(seed, normals):
+        rs = np.random.RandomState(seed)
+        for _ in range(normals):
+            rs.standard_normal()            # an odd number leaves a cached second value in the state
+        return rs
+
+    unsorted_csr = _sp.csr_matrix((np.array([1.0, 2.0, 3.0, 4.0, 5.0, 6.0]), np.array([2, 0, 1, 3, 1, 0]), np.array([0, 3, 6])), shape=(2, 4))
+    out = [("rbf-used-randomstate", RBFSampler(n_components=3, random_state=used_rs(0, 1))),
+           ("grp-used-randomstate", GaussianRandomProjection(n_components=2, random_state=used_rs(1, 3))),
+           ("ft-randomstates", FunctionTransformer(np.add, kw_args={"a": used_rs(2, 1), "b": [used_rs(3, 2), used_rs(4, 5)]})),
+           ("ft-noncanonical-sparse", FunctionTransformer(np.add, kw_args={"m": unsorted_csr, "c": _sp.coo_matrix((np.array([1.0, 2.0]), (np.array([0, 0]), np.array([1, 1]))), shape=(1, 2))})),
+           ("imputer-npstr", SimpleImputer(strategy="constant", fill_value=np.str_("missing"))),
            ("logreg-npstr-keys", LogisticRegression(class_weight={np.str_("a"): 1.0, np.str_("b"): 2.0})),
            ("dummy-npstr-constant", DummyClassifier(strategy="constant", constant=np.str_("a"))),
            ("ft-kwargs", FunctionTransformer(np.add, kw_args={"out": None, "scalars": [np.void(b"ab"), np.datetime64("2020-01-01"), np.timedelta64(3, "s")]}))]
